@@ -600,6 +600,17 @@ pub struct Lock<'a> {
     pub quiescent_checks: usize,
     /// the scenario sends two message types (`Scenario::has_b`)
     pub mixed: bool,
+    /// DeliverMessage commands handled while their receiver could no longer receive (it had
+    /// failed, or finished and is not persistent): (receiver pid, tag, seq).  C04 is about messages
+    /// sent to a LIVE process; with the variant `release-dead` these are dropped by the runtime.
+    pub dead_deliveries: Vec<(usize, u64, u64)>,
+    /// Messages that were in the mailbox of a non-persistent process, unread, when it finished
+    /// successfully: (pid, tag, seq).  They were delivered (once, in order) to a live process that
+    /// chose not to receive them; the variant `release-dead` releases them with the process, so
+    /// the final state no longer shows them.  Observed at the step in which the process finishes:
+    /// its mailbox before the step plus what the step delivers to it, minus what its result says
+    /// it consumed (a message is identified by its (tag, seq)).
+    pub released_unread: Vec<(usize, u64, u64)>,
 }
 
 impl<'a> Lock<'a> {
@@ -618,6 +629,8 @@ impl<'a> Lock<'a> {
             oracle_failures: vec![],
             mixed: false,
             quiescent_checks: 0,
+            dead_deliveries: vec![],
+            released_unread: vec![],
         }
     }
 
@@ -674,10 +687,65 @@ impl<'a> Lock<'a> {
 
     fn worker_step(&mut self, i: usize, visible: usize) -> StepObs {
         let evts_before = self.sim.chans[i].chan.lock().unwrap().evts.len();
+        // Which of the commands this step will handle deliver a message to a process that can no
+        // longer receive?  A worker handles its commands before it runs any process, so the state
+        // before the step decides (a process created by an earlier command of the batch is live).
+        let mut pending_mail: HashMap<usize, Vec<(u64, u64)>> = HashMap::new();
+        {
+            let c = self.sim.chans[i].chan.lock().unwrap();
+            let ex = self.sim.workers[i].verif_executor();
+            for pid in ex.verif_process_ids() {
+                if let Some(p) = ex.get_process(pid)
+                    && p.result.is_none()
+                    && !p.persistent
+                {
+                    pending_mail.insert(pid, p.mailbox.iter().filter_map(msg_pair).collect());
+                }
+            }
+            let mut created: Vec<usize> = vec![];
+            for cmd in c.cmds.iter().take(visible.min(c.cmds.len())) {
+                if let Command::SpawnProcess { id, .. } = cmd {
+                    created.push(*id);
+                    pending_mail.entry(*id).or_default();
+                }
+                if let Command::DeliverMessage { target, message, .. } = cmd
+                    && let Some((tag, seq)) = msg_pair(message)
+                {
+                    let live = match ex.get_process(*target) {
+                        Some(p) => match &p.result {
+                            None => true,
+                            Some(Ok(_)) => p.persistent,
+                            Some(Err(_)) => false,
+                        },
+                        None => created.contains(target),
+                    };
+                    if live {
+                        if let Some(mb) = pending_mail.get_mut(target) {
+                            mb.push((tag, seq));
+                        }
+                    } else if ex.get_process(*target).is_some() {
+                        self.dead_deliveries.push((*target, tag, seq));
+                    }
+                }
+            }
+        }
         quiver_core::executor::verif::set_trace(Some(vec![]));
         self.sim.step(Choice::Worker { i, visible });
         let trace = quiver_core::executor::verif::take_trace().unwrap_or_default();
         let ex = self.sim.workers[i].verif_executor();
+        // a process that finished in this step: what it had not read
+        for (pid, avail) in &pending_mail {
+            if let Some(p) = ex.get_process(*pid)
+                && let Some(Ok(Value::Tuple(_, fields))) = &p.result
+            {
+                let consumed: Vec<(u64, u64)> = fields.iter().filter_map(msg_pair).collect();
+                for m in avail {
+                    if !consumed.contains(m) {
+                        self.released_unread.push((*pid, m.0, m.1));
+                    }
+                }
+            }
+        }
         // which process ran: every process instance has its own function (first trace entry)
         let mut fn_to_pid: HashMap<usize, usize> = HashMap::new();
         for pid in ex.verif_process_ids() {
@@ -1001,6 +1069,45 @@ pub fn detect_exit_reports() -> bool {
     sim.chans.iter().any(|ch| ch.chan.lock().unwrap().evt_log.iter().any(|(_, e)| exited_pid(e).is_some()))
 }
 
+pub static RELEASE_DEAD: std::sync::atomic::AtomicBool = std::sync::atomic::AtomicBool::new(false);
+
+/// Does the runtime this harness is linked against release what a finished process still holds
+/// and drop messages for it (notes/C06-fixes/01, `release_dead_roots`)?  Probed by behaviour: a
+/// child that receives one message and finishes is sent two; with the variant its mailbox is empty
+/// afterwards (the second message is dropped on arrival, or released when the child finished),
+/// without it the second message stays there.
+pub fn detect_release_dead() -> bool {
+    let sc = Scenario {
+        kind: "probe".into(),
+        scripts: vec![
+            vec![Act::Spawn { f: 1, pass: vec![] }, Act::Send { reg: 1, tag: 0, seq: 0 }, Act::Send { reg: 1, tag: 0, seq: 1 }],
+            vec![Act::Select(vec![Src::Recv])],
+        ],
+        terminates: true,
+        confluent: true,
+    };
+    let mut sim = Sim::new(1, None, qverif::run::builtins(), false).with_repl(HashMap::new());
+    let Ok(Some(_req)) = sim.submit(&sc.source()) else { return false };
+    sim.run_fair(50, |_| false);
+    let mut seen = false;
+    let mut empty = true;
+    for w in &sim.workers {
+        let ex = w.verif_executor();
+        for pid in ex.verif_process_ids() {
+            if pid == 0 {
+                continue;
+            }
+            if let Some(p) = ex.get_process(pid) {
+                seen = true;
+                if p.result.is_none() || !p.mailbox.is_empty() {
+                    empty = false;
+                }
+            }
+        }
+    }
+    seen && empty
+}
+
 /// Tell the model which variant of the runtime it has to mirror (once, after `Model::spawn`).
 pub fn configure_model(model: &mut Model) -> Vec<String> {
     let mut on = vec![];
@@ -1014,6 +1121,12 @@ pub fn configure_model(model: &mut Model) -> Vec<String> {
         assert_eq!(ans, "ok", "model does not know the variant select-waits");
         SHOW_UNANSWERED.store(true, std::sync::atomic::Ordering::Relaxed);
         on.push("select-waits".to_string());
+    }
+    if detect_release_dead() {
+        let ans = model.ask("(cfg release-dead on)");
+        assert_eq!(ans, "ok", "model does not know the variant release-dead");
+        RELEASE_DEAD.store(true, std::sync::atomic::Ordering::Relaxed);
+        on.push("release-dead".to_string());
     }
     on
 }
